@@ -21,7 +21,7 @@ Clauses, named "<prop>.<env>.<clause>" with env in fjsp|jssp|ffsp|smtwtp:
   C02 *.step-bound                   row done within #ops (+ #waits <= #ops when waiting is allowed) [FJSP/JSSP],
                                      J*S + S*M*(sum_j max dur_j + 1) [FFSP], n [SMTWTP]
   C02 *.done-step                    done reported exactly at the step at which the oracle completes the schedule
-  C02 *.step-raises                  library raised (or did not return within 30 s) on mask-admitted actions
+  C02 *.step-raises                  library raised (or did not return within 20 s) on mask-admitted actions
   C03 *.reward-equals-objective      get_reward == -(latest completion) of the reported schedule and of the oracle
                                      schedule (exact); SMTWTP -(sum w*max(0,C-d)) recomputed in float64, rel. tol 1e-5
   C04 *.solo|rebatch.masks|done-step|reward   same instance + same actions stepped alone (batch 1) and inside another
@@ -60,8 +60,10 @@ def V(name, what, inp=None):
 class limit:
     """SIGALRM watchdog: a library call that does not return is reported (C02 step-raises), the harness never hangs."""
 
-    def __init__(self, seconds=30):
-        self.s = seconds
+    hung = set()  # envs that timed out once are not driven any further
+
+    def __init__(self, name, seconds=20):
+        self.name, self.s = name, seconds
 
     def __enter__(self):
         signal.signal(signal.SIGALRM, self.fire)
@@ -71,6 +73,7 @@ class limit:
         signal.setitimer(signal.ITIMER_REAL, 0)
 
     def fire(self, *a):
+        limit.hung.add(self.name)
         raise TimeoutError(f"library call did not return within {self.s} s")
 
 
@@ -302,6 +305,8 @@ def episode(K, td0, plan=None, tag=""):
     """One batched mask-confined episode; plan[i] = actions to replay for row i (afterwards / else random feasible)."""
     env, B = K.env, td0.batch_size[0]
     insts = [K.inst(td0, i) for i in range(B)]
+    if K.name in limit.hung:
+        return None
     if any(x is None for x in insts):
         return REP.error(f"{K.label}: instance not well formed, batch skipped")
     bounds = [K.bound(x) for x in insts]
@@ -337,7 +342,7 @@ def episode(K, td0, plan=None, tag=""):
             rec["acts"][i].append(a[-1])
         td.set("action", torch.tensor(a, dtype=torch.long))
         try:
-            with limit():
+            with limit(K.name):
                 td = env.step(td)["next"]
         except Exception as e:  # library raised on mask-admitted actions
             V(f"C02.{K.name}.step-raises", f"env.step raised {type(e).__name__}: {e} at step {k}, batch actions {a}", ctx(0, k + 1))
@@ -383,7 +388,7 @@ def random_config(K, B, td0=None, nsolo=2):
         return
     dd = base["dstep"]
     for i in range(B):
-        REP.case((K.label, "rand", tuple(base["acts"][i][: dd[i]]), repr(base["insts"][i])))
+        REP.case((K.label, "rand", REP.cases, tuple(base["acts"][i][: dd[i]])))  # every generated row is a fresh instance
     order = sorted(range(B), key=lambda i: dd[i])
     for i in dict.fromkeys([order[0], order[-1]] + RNG.sample(range(B), min(B, nsolo))):
         solo = episode(K, td0[i : i + 1], plan=[base["acts"][i][: dd[i]]], tag=f"solo replay of row {i}")
@@ -401,6 +406,8 @@ def bfs(K, td0, chunk=8192):
     """All mask-admitted action sequences of the instances in td0; the frontier is stepped as one batch."""
     env, n = K.env, td0.batch_size[0]
     insts = [K.inst(td0, i) for i in range(n)]
+    if K.name in limit.hung:
+        return None
     if any(x is None for x in insts):
         return REP.error(f"{K.label}: instance not well formed, exhaustive exploration skipped")
     cap = max(K.bound(x) for x in insts)
@@ -422,7 +429,7 @@ def bfs(K, td0, chunk=8192):
             child.set("action", aa.clone())
             hh = [(hist[r][0], hist[r][1] + (a,)) for r, a in zip(rr.tolist(), aa.tolist())]
             try:
-                with limit():
+                with limit(K.name):
                     child = env.step(child)["next"]
                     done = child["done"].reshape(-1)
                     dl = done.nonzero().reshape(-1).tolist()
@@ -432,7 +439,9 @@ def bfs(K, td0, chunk=8192):
             except Exception as e:
                 return V(f"C02.{K.name}.step-raises", f"{type(e).__name__}: {e} at depth {depth} (batch of {len(hh)} prefixes, last action of each mask-admitted)", mk(hh[0]))
             for q, r in enumerate(dl):
-                REP.case((K.label, "bfs", repr(insts[hh[r][0]]), hh[r][1]))
+                if rew[q] != rew[q]:  # NaN: no reward obtainable, already reported by finish()
+                    continue
+                REP.case((K.label, "bfs", hh[r]))  # (instance index, action sequence)
                 K.check(insts[hh[r][0]], list(hh[r][1]), fl, q, rew[q], depth + 1, mk(hh[r]))
             keep = (~done).nonzero().reshape(-1)
             if keep.numel():
